@@ -7,6 +7,7 @@ import YashModel.Syntax.WordLemmas
 import YashModel.Syntax.CommandLemmas
 import YashModel.Syntax.FragmentLemmas
 import YashModel.Syntax.ParserLemmas
+import YashModel.Syntax.StructLemmas
 namespace YashModel.Syntax
 
 /-- ★ Every escape unit the parser can produce is printed as text that the escape lexer reads back as the
@@ -190,5 +191,167 @@ example (rest : List Char) :
 
 example : TermOk ';' := Or.inl rfl
 example : FdOk (some 2) := by show 2 ≤ 2147483647; decide
+
+
+/-! ## The command structure (`structure_roundtrip`, layer by layer)
+
+  The parsers of pipelines, and-or lists and lists are written over an abstract command parser `pc`
+  (`Structure.lean`); each layer is proved from the round trip of the layer below (`CmdRT`, `PipeRT`,
+  `AndOrRT`: "the sub-tree, printed in its place, is read back as itself"), i.e. assuming the leaves
+  round-trip. -/
+
+/-- ★ layer 0: a simple command of the fragment reads back in front of every command tail (an optional
+    blank and one of `;` `&` `|` `)` newline — hence also in front of ` | `, ` && `, ` || `, `;;`). -/
+theorem simple_command_roundtrip_tail (c : SimpleCommand) (tail : List Char) (ht : TailOk tail)
+    (h : SimpleOk c tail) (sp : Bool) (fuel : Nat) (hf : (printSimple c).length + 2 ≤ fuel) :
+    parseSimple fuel ((if sp then [' '] else []) ++ (printSimple c ++ tail)) = some (some c, tail) :=
+  parseSimple_tail c tail ht h sp fuel hf
+
+/-- ★ layer 1: a pipeline `[!] c₁ | … | cₙ` whose commands read back in their places reads back, provided
+    the token after it is not `|` and (for `!`) the command parser finds no command at the `!`. -/
+theorem pipeline_roundtrip (pc : CmdParser) (neg : Bool) (c : Command) (cs : List Command)
+    (tail : List Char) (ht : EndsWithout tail [.bar]) (h : CmdsRT pc (c :: cs) tail)
+    (hbang : neg = true → ∀ x, pc ('!' :: ' ' :: x) = some (none, '!' :: ' ' :: x) ∧
+        pc (' ' :: '!' :: ' ' :: x) = some (none, ' ' :: '!' :: ' ' :: x)) (sp : Bool) :
+    parsePipeline pc ((if sp then [' '] else []) ++ (printPipeline (.mk (c :: cs) neg) ++ tail)) =
+      some (some (.mk (c :: cs) neg), tail) :=
+  pipeline_rt pc neg c cs tail ht h hbang sp
+
+/-- ★ layer 2: an and-or list `p₀ && p₁ || …` whose pipelines read back in their places reads back,
+    provided the token after it is neither `&&` nor `||`. -/
+theorem and_or_roundtrip (pc : CmdParser) (p : Pipeline) (rs : List AndOrRest) (tail : List Char)
+    (ht : EndsWithout tail [.andAnd, .barBar]) (hp : PipeRT pc p (aoRest rs tail))
+    (hrs : PipesRT pc rs tail) (sp : Bool) :
+    parseAndOr pc ((if sp then [' '] else []) ++ (printAndOr (.mk p rs) ++ tail)) =
+      some (some (.mk p rs), tail) :=
+  andOr_rt pc p rs tail ht hp hrs sp
+
+/-- ★ layer 3: a list of `;` / `&` items, printed with (`alt`) or without the final terminator, whose
+    and-or lists read back in their places reads back through `maybe_compound_list`, when a clause
+    delimiter follows at which no command starts. -/
+theorem list_roundtrip (pc : CmdParser) (alt : Bool) (l : List Item) (tail : List Char)
+    (he : ListEnd pc alt tail) (hc : CloserAt tail) (h : ItemsRT pc alt l tail) (sp : Bool)
+    (hsp : l = [] → sp = false) (fuel : Nat) (hf : 1 ≤ fuel) :
+    parseCompoundList pc fuel ((if sp then [' '] else []) ++ (printList alt l ++ tail)) = some (l, tail) :=
+  compoundList_rt pc alt l tail he hc h sp hsp fuel hf
+
+/-- ★ layer 4: `{ list; }` reads back when its list does. -/
+theorem grouping_roundtrip (pc : CmdParser) (l : List Item) (hl : l ≠ []) (tail : List Char)
+    (hn : NextOk tail) (h : ListRT pc true l (' ' :: ("}".toList ++ tail))) (sp : Bool) :
+    parseCompound pc ((if sp then [' '] else []) ++ (printCompound (.grouping l) ++ tail)) =
+      some (some (.grouping l), tail) :=
+  grouping_rt pc l hl tail hn h sp
+
+/-- ★ layer 4: `(list)` reads back when its list does (the `(` and `)` must be read as those operators:
+    `hopen`, `hclose`). -/
+theorem subshell_roundtrip (pc : CmdParser) (l : List Item) (hl : l ≠ []) (tail : List Char)
+    (hopen : ∀ sp : Bool, ∃ t, lexToken ((if sp then [' '] else []) ++ '(' :: (printList false l ++ ')' :: tail)) =
+        some (t, printList false l ++ ')' :: tail) ∧ t.isOp .openParen = true ∧ ∀ k, t.isKw k = false)
+    (hclose : expectOp .closeParen (')' :: tail) = some tail)
+    (h : ListRT pc false l (')' :: tail)) (sp : Bool) :
+    parseCompound pc ((if sp then [' '] else []) ++ (printCompound (.subshell l) ++ tail)) =
+      some (some (.subshell l), tail) :=
+  subshell_rt pc l hl tail hopen hclose h sp
+
+/-- ★ layer 4: `while`/`until` loops read back when their condition and body do. -/
+theorem while_until_roundtrip (pc : CmdParser) (isWhile : Bool) (c b : List Item) (hc : c ≠ []) (hb : b ≠ [])
+    (tail : List Char) (hn : NextOk tail)
+    (h1 : ListRT pc true c (' ' :: ("do".toList ++ ' ' :: (printList true b ++ ' ' :: ("done".toList ++ tail)))))
+    (h2 : ListRT pc true b (' ' :: ("done".toList ++ tail))) (sp : Bool) :
+    parseCompound pc ((if sp then [' '] else []) ++
+        (printCompound (if isWhile then .whileLoop c b else .untilLoop c b) ++ tail)) =
+      some (some (if isWhile then .whileLoop c b else .untilLoop c b), tail) :=
+  while_rt pc isWhile c b hc hb tail hn h1 h2 sp
+
+/-- ★ layer 4: `if … then … [elif … then …]* [else …] fi` reads back when all its lists do. -/
+theorem if_roundtrip (pc : CmdParser) (c b : List Item) (es : List ElifThen) (hasElse : Bool) (e : List Item)
+    (hc : c ≠ []) (hb : b ≠ []) (he : hasElse = true → e ≠ []) (tail : List Char) (hn : NextOk tail)
+    (after : List Char)
+    (hafter : after = if hasElse then "else".toList ++ ' ' :: (printList true e ++ ' ' :: ("fi".toList ++ tail))
+      else "fi".toList ++ tail)
+    (h1 : ListRT pc true c (' ' :: ("then".toList ++ ' ' :: (printList true b ++ ' ' :: elifText es after))))
+    (h2 : ListRT pc true b (' ' :: elifText es after))
+    (h3 : ElifsRT pc es after)
+    (h4 : hasElse = true → ListRT pc true e (' ' :: ("fi".toList ++ tail))) (sp : Bool) :
+    parseCompound pc ((if sp then [' '] else []) ++
+        (printCompound (.ifCmd c b es hasElse (if hasElse then e else [])) ++ tail)) =
+      some (some (.ifCmd c b es hasElse (if hasElse then e else [])), tail) :=
+  if_rt pc c b es hasElse e hc hb he tail hn after hafter h1 h2 h3 h4 sp
+
+/-- ★ command level: a simple command of the fragment is read by `Parser::command` as that simple command
+    (it is not mistaken for a function definition `name ( )`). -/
+theorem command_simple_roundtrip (n : Nat) (c : SimpleCommand) (tail : List Char) (ht : TailOk tail)
+    (h : SimpleOk c tail) (sp : Bool) :
+    parseCommand (n + 1) ((if sp then [' '] else []) ++ (printSimple c ++ tail)) =
+      some (some (.simple c), tail) :=
+  parseCommand_simple n c tail ht h sp
+
+/-- ★ command level: a compound command that reads back, followed by its printed redirections
+    (`{ …; } >f 2>&1`), is read by `Parser::command` as the compound command with those redirections. -/
+theorem compound_with_redirections_roundtrip (n : Nat) (c : CompoundCommand) (rs : List Redir)
+    (tail : List Char) (ht : TailOk tail) (hrs : RedirsOk rs tail) (sp : Bool)
+    (hstart : ∃ t r, lexToken ((if sp then [' '] else []) ++ (printCompound c ++ (printRedirsSp rs ++ tail))) =
+      some (t, r) ∧ (t.id = .word true ∨ t.id = .op .openParen))
+    (hc : parseCompound (parseCommand n)
+        ((if sp then [' '] else []) ++ (printCompound c ++ (printRedirsSp rs ++ tail))) =
+      some (some c, printRedirsSp rs ++ tail)) :
+    parseCommand (n + 1) ((if sp then [' '] else []) ++ (printCommand (.compound c rs) ++ tail)) =
+      some (some (.compound c rs), tail) :=
+  parseCommand_compound n c rs tail ht hrs sp hstart hc
+
+/-! ### Instances (kernel evaluation of the whole model parser on printed programs) -/
+
+/-- kernel-evaluated instances of the whole model parser on printed programs: pipeline with `!`, and-or,
+    async item, brace group with a redirection, subshell, `if`/`elif`/`else`, `while`, `until`, `for` with
+    and without `in`, `case` with the three terminators, a function definition, and the function whose
+    name ends in `$` (printed with the separating blank of fix 5836ace) -/
+example : reads
+    [.mk (.mk (.mk [sc ["a"], sc ["b"]] true) [.mk true (.mk [sc ["c"]] false)]) true,
+     it1 (.compound (.grouping [it1 (sc ["d"])]) [.normal none .fileOut (lw "f")])] = true := by
+  decide +kernel
+
+example : reads
+    [it1 (.compound (.subshell [it1 (sc ["a"]) true, it1 (sc ["b"])]) []),
+     it1 (.compound (.ifCmd [it1 (sc ["a"])] [it1 (sc ["b"])] [.mk [it1 (sc ["c"])] [it1 (sc ["d"])]] true
+       [it1 (sc ["e"])]) [.normal (some 2) .fdOut (lw "1")])] = true := by
+  decide +kernel
+
+example : reads
+    [it1 (.compound (.whileLoop [it1 (sc ["a"])] [it1 (sc ["b"])]) []),
+     it1 (.compound (.untilLoop [it1 (sc ["a"])] [it1 (sc ["b"]) true]) []),
+     it1 (.compound (.forLoop (lw "x") (some [lw "1", lw "2"]) [it1 (sc ["b"])]) []),
+     it1 (.compound (.forLoop (lw "x") none [it1 (sc ["b"])]) [])] = true := by
+  decide +kernel
+
+example : reads
+    [it1 (.compound (.caseCmd (lw "x") [.mk [lw "a", lw "b"] [it1 (sc ["c"])] .break_,
+        .mk [lw "d"] [] .fallThrough, .mk [lw "e"] [it1 (sc ["f"]) true] .continue_]) []),
+     it1 (.function false (lw "f") (.grouping [it1 (sc ["g"])]) [.normal none .fileIn (lw "h")]),
+     it1 (.function false (lw "a$") (.grouping [it1 (sc ["g"])]) [])] = true := by
+  decide +kernel
+
+/-- the separator rule: a function name ending in an unquoted `$` is printed with a blank before `()` -/
+example : printCommand (.function false (lw "a$") (.grouping [it1 (sc ["g"])]) []) = "a$ () { g; }".toList := by
+  decide +kernel
+
+
+/-! ## Known non-round-trips, as kernel-checked counter-examples (the boundary of the theorems) -/
+
+/-- Boundary of `word_self_delimiting` (finding K4): the word `[Literal '\\']` (a backslash at the end of
+    the input) is printed as a bare `\`, and in front of a blank that reads back as an escaped blank. -/
+theorem trailing_backslash_word_does_not_read_back :
+    lexWord .token (printWord [.unquoted (.literal '\\')] ++ [' ', ';']) =
+      some ([.unquoted (.backslashed ' ')], [';']) := by
+  rfl
+
+/-- Boundary of `simple_command_roundtrip` (finding K4): `words = [\], redirs = [>f]` is printed as `\ >f`
+    (words before redirections) and reads back as the command with the word `\ ` — a different tree. -/
+theorem trailing_backslash_command_does_not_read_back :
+    parseSimple 10 (printSimple ⟨[], [[.unquoted (.literal '\\')]],
+        [.normal none .fileOut [.unquoted (.literal 'f')]]⟩ ++ [';']) =
+      some (some ⟨[], [[.unquoted (.backslashed ' ')]],
+        [.normal none .fileOut [.unquoted (.literal 'f')]]⟩, [';']) := by
+  rfl
+
 
 end YashModel.Syntax
